@@ -306,7 +306,11 @@ func analyse(dump []byte) (quiescent, soft bool) {
 		}
 		switch {
 		case strings.Contains(state, "(durable)"):
-		case strings.HasPrefix(state, "sync."), strings.HasPrefix(state, "semacquire"):
+		case strings.HasPrefix(state, "sync."):
+			// sync.Mutex.Lock, sync.RWMutex.(R)Lock, sync.WaitGroup.Wait, sync.Cond.Wait.
+			// The bare wait reason "semacquire" is NOT counted: it is also the state of a
+			// goroutine waiting for a runtime-internal semaphore (e.g. starting a GC
+			// cycle), which runtime system goroutines release without the scheduler.
 		case state == "chan receive", state == "chan send", state == "select", state == "chan receive (nil chan)", state == "select (no cases)":
 			soft = true
 		default:
